@@ -2,6 +2,7 @@
 package main
 
 import (
+	"encoding/json"
 	"fmt"
 	"os"
 
@@ -13,6 +14,12 @@ import (
 func main() {
 	if len(os.Args) > 1 && os.Args[1] == "consts" {
 		fmt.Printf(`{"NPM":%d,"Maven":%d,"PyPI":%d,"UnknownSystem":%d}`+"\n", resolve.NPM, resolve.Maven, resolve.PyPI, resolve.UnknownSystem)
+		return
+	}
+	if len(os.Args) > 1 && os.Args[1] == "grpc" {
+		conn := &apidesc.RecConn{}
+		b := apidesc.GrpcBindings(conn, pb.NewInsightsClient(conn), pb.Insights_ServiceDesc, pb.UnimplementedInsightsServer{})
+		json.NewEncoder(os.Stdout).Encode(b)
 		return
 	}
 	if err := apidesc.Dump(pb.File_api_proto, os.Stdout); err != nil {
